@@ -75,7 +75,7 @@ impl ColSpec {
     }
 }
 
-fn round_elem(v: f64, f32_: bool) -> f64 {
+pub fn round_elem(v: f64, f32_: bool) -> f64 {
     if f32_ {
         (v as f32) as f64
     } else {
